@@ -62,10 +62,14 @@ def ObsFramed (m : Method) (o : Obs) : Prop :=
 
 theorem deliver_nil : deliver [] = ([], End.clean) := rfl
 
+/-- a clean end stays clean whatever `AppResponse.__next__` does with non-bytes items -/
+@[simp] theorem endOf_clean : endOf .clean = .clean := by
+  unfold endOf; split <;> simp_all
+
 /-- what `serve` observes when it does not replace the response by the bare 500 -/
 theorem obsFramed_of (m : Method) (r : Resp) (cached : Bool) (d : Bytes) (e : End) (hf : Framed r)
     (hd : deliver (if m = .head then [] else r.body.chunks) = (d, e)) :
-    ObsFramed m ⟨codeOf r, r.hdrs .contentLength, r.hdrs .contentType, (r.hdrs .contentEncoding).isSome, d, e,
+    ObsFramed m ⟨codeOf r, r.hdrs .contentLength, r.hdrs .contentType, (r.hdrs .contentEncoding).isSome, d, endOf e,
                  r.stream, cached, r.src, r.gz⟩ := by
   obtain ⟨hcl, hnb, hfr⟩ := hf
   by_cases hm : m = .head
@@ -73,7 +77,7 @@ theorem obsFramed_of (m : Method) (r : Resp) (cached : Bool) (d : Bytes) (e : En
     cases hd
     refine ⟨fun h => ⟨(hnb h).1, rfl⟩, fun hs h => ?_, fun _ => ⟨fun _ => rfl, fun n _ h => absurd hm h⟩⟩
     obtain ⟨n, hn⟩ := hfr hs h
-    exact ⟨n, hn, rfl, fun h => absurd hm h, fun _ => rfl⟩
+    exact ⟨n, hn, endOf_clean, fun h => absurd hm h, fun _ => rfl⟩
   · simp only [hm, if_false] at hd
     rcases CLok_cases hcl with h0 | h0 | ⟨n, h0, hb, hl⟩
     · refine ⟨fun h => ?_, fun hs h => ?_, fun _ => ⟨fun h => absurd h hm, fun n hn _ => ?_⟩⟩
@@ -92,14 +96,14 @@ theorem obsFramed_of (m : Method) (r : Resp) (cached : Bool) (d : Bytes) (e : En
       · simp only at hn; rw [h0] at hn; cases hn
     · rw [deliver_allBytes _ hb] at hd
       cases hd
-      refine ⟨fun h => ?_, fun _ _ => ⟨n, h0, rfl, fun _ => hl, fun h => absurd h hm⟩,
+      refine ⟨fun h => ?_, fun _ _ => ⟨n, h0, endOf_clean, fun _ => hl, fun h => absurd h hm⟩,
               fun _ => ⟨fun h => absurd h hm, fun n' hn _ => ?_⟩⟩
       · have := (hnb h).1
         rw [h0] at this; cases this
       · simp only at hn
         rw [h0] at hn
         cases hn
-        exact ⟨rfl, hl⟩
+        exact ⟨endOf_clean, hl⟩
 
 theorem noBody_500' : noBody 500 = false := by decide
 
@@ -354,7 +358,7 @@ theorem C06_head (pg : Pages) (rq : Req) (p : Plan) (cache : Option Cache) (hm :
     let g := (respond pg (asGet rq) p cache).1.r
     o.delivered = [] ∧ o.code = codeOf g ∧ o.cl = g.hdrs .contentLength ∧ o.ctype = g.hdrs .contentType := by
   have h := respond_head_eq_get pg rq p cache hm
-  simp only [serve, hm, if_true, deliver_nil]
+  simp only [serve, hm, if_true, deliver_nil, endOf_clean]
   rw [← h]
   simp [codeOf]
 
@@ -395,7 +399,7 @@ theorem C06_head_nonstream (pg : Pages) (rq : Req) (p : Plan) (cache : Option Ca
       · exact ⟨_, deliver_allBytes _ hb⟩
   obtain ⟨d, hd⟩ := hclean
   have hget : (asGet rq).method ≠ .head := by simp [asGet]
-  simp only [serve, hget, if_false, hd]
+  simp only [serve, hget, if_false, hd, endOf_clean]
   simp [codeOf]
 
 /-! ### what is false on the unchanged code -/
@@ -444,6 +448,22 @@ example (hk : Gen.C06.encodeStreamKeepsCL = true) : ¬ HandlerOk witnessPlan := 
 theorem handlerOk_witness_of_repaired (hk : Gen.C06.encodeStreamKeepsCL = false) : HandlerOk witnessPlan := by
   refine ⟨fun n _ => .inr ⟨rfl, rfl, fun h => ?_⟩, ⟨fun t ht => (by cases ht), fun t ht => (by cases ht)⟩⟩
   rw [hk] at h; cases h
+
+/-! ### non-bytes body items at the WSGI boundary -/
+
+/-- once `AppResponse.__next__` refuses them, no response ever hands a non-bytes item to the server: the iteration
+    ends cleanly or as a failure of the body iterator -/
+theorem endOf_never_nonBytes (h : Gen.C06.nextRefusesNonBytes = true) (e : End) : endOf e ≠ .nonBytes := by
+  unfold endOf
+  cases e <;> simp [h]
+
+/-- a streamed handler (tools.encode off) whose first item is a str: answered with the framed bare 500 exactly when
+    `__next__` refuses the item (otherwise the str reaches the server) -/
+theorem nonbytes_first_item_iff :
+    (let o := (serve pg0 {} { h := { shape := .genV [.text ['a']] }, t := { stream := true } } none).1
+     o.code = 500 ∧ o.src = .bare ∧ o.ending = .clean ∧ o.cl = some (.nat 1) ∧ o.delivered.length = 1) ↔
+    Gen.C06.nextRefusesNonBytes = true := by
+  decide
 
 /-! ### XML-RPC (finding C06-F2) -/
 
